@@ -163,7 +163,9 @@ impl FileSystem {
             }
 
             let node = nodes.pop().unwrap();
-            if path.as_unix_str().as_bytes().ends_with(b"/")
+            // (`components` drops a `.` that is not the first component)
+            let bytes = path.as_unix_str().as_bytes();
+            if (bytes.ends_with(b"/") || bytes.ends_with(b"/."))
                 && !matches!(&node.borrow().body, FileBody::Directory { .. })
             {
                 return Err(Errno::ENOTDIR);
